@@ -25,8 +25,11 @@ def valid_lookup(rng, V, tbl, isotopes_ok=True):
         Z = a[0]
         e = V.els[Z]
         sym, name = e["symbol"], e["name"]
+        def eq(k):
+            # now and then a key of another type that compares and hashes equal (26.0, numpy.int64(26))
+            return [rng.choice(["f", "np", "np32"]), k] if rng.random() < 0.12 else k
         if route == "Z":
-            return ["lookup", tbl, "Z", Z, [Z, 0, 0]]
+            return ["lookup", tbl, "Z", eq(Z), [Z, 0, 0]]
         if route == "symbol":
             return ["lookup", tbl, "symbol", sym, [Z, 0, 0]]
         if route == "attr":
@@ -62,7 +65,7 @@ def valid_lookup(rng, V, tbl, isotopes_ok=True):
             return ["lookup", tbl, "isostr", s, [Z, A, 0]]
         if route == "iso":
             A = rng.choice(e["isotopes"])
-            return ["lookup", tbl, "iso", [Z, A], [Z, A, 0]]
+            return ["lookup", tbl, "iso", [Z, eq(A)], [Z, A, 0]]
         if route == "isoel":
             A = rng.choice(e["isotopes"])
             return ["lookup", tbl, "isoel", [Z, A], [Z, 0, 0]]
@@ -75,12 +78,12 @@ def valid_lookup(rng, V, tbl, isotopes_ok=True):
             continue
         q = rng.choice(e["ions"])
         if route == "ion":
-            return ["lookup", tbl, "ion", [Z, q], [Z, 0, q]]
+            return ["lookup", tbl, "ion", [Z, eq(q)], [Z, 0, q]]
         if route == "ionattr":
             return ["lookup", tbl, "ionattr", [Z, q], [Z, 0, 0]]
         if route == "isoion":
             A = rng.choice(e["isotopes"])
-            return ["lookup", tbl, "isoion", [Z, A, q], [Z, A, q]]
+            return ["lookup", tbl, "isoion", [Z, eq(A), eq(q)], [Z, A, q]]
 
 
 def bad_lookup(rng, V, tbl, isotopes_ok=True):
